@@ -31,6 +31,9 @@ def short_windows(tier):
         ({"start": (2000, 3, 1), "end": (2000, 6, 30), "plant": (3, 1), "harv": None, "maturity": 8, "thermal": False, "off": False, "die": False}, None),
         ({"start": (2000, 2, 27), "end": (2000, 3, 7), "plant": (3, 1), "harv": None, "maturity": 15, "thermal": False, "off": True, "die": False}, None),
     ]
+    # two seasons with the jump from the first harvest to the second planting date (off-season not simulated): every call boundary incl. the one
+    # exactly at the end of the first season
+    ws.append(({"start": (1999, 12, 30), "end": (2001, 1, 6), "plant": (12, 31), "harv": None, "maturity": 4, "thermal": False, "off": False, "die": False, "seasons": 2}, None))
     if tier == "thorough":
         ws.append(({"start": (1999, 12, 28), "end": (2000, 1, 9), "plant": (12, 31), "harv": None, "maturity": 6, "thermal": False, "off": True, "die": False}, None))
     return ws
@@ -51,7 +54,7 @@ def run(tier, seed):
             T = nsteps
         else:
             lead = (dt.date(w["start"][0], *w["plant"]) - dt.date(*w["start"])).days
-            T = max(0, lead) + w["maturity"]
+            T = max(0, lead) + w["maturity"] * int(w.get("seasons", 1))
         T = min(T, nsteps)
         assert T <= 12
         comps = compositions(T)
